@@ -373,11 +373,11 @@ func (e *Engine) jump(st *State, f *Frame, to *ssa.BasicBlock) {
 	}
 	// back edge => loop unwinding check
 	if to.Index <= f.blk.Index {
-		if st.loopCount == nil {
-			st.loopCount = map[*ssa.BasicBlock]int{}
+		if f.loop == nil {
+			f.loop = map[*ssa.BasicBlock]int{}
 		}
-		st.loopCount[to]++
-		if st.loopCount[to] > e.unwind {
+		f.loop[to]++
+		if f.loop[to] > e.unwind {
 			e.inconclusive(fmt.Sprintf("UNWIND limit %d exceeded at %s block %d", e.unwind, f.fn, to.Index))
 			panic(pathEnd{"unwind"})
 		}
@@ -457,6 +457,9 @@ func (e *Engine) step(st *State, f *Frame, instr ssa.Instruction) ([]*State, boo
 	case *ssa.Index:
 		x := e.eval(st, f, in.X)
 		idx := e.eval(st, f, in.Index).(*Term)
+		if sx, isStr := x.(*Str); isStr {
+			return e.strIndex(st, f, in, sx, idx)
+		}
 		av, ok := x.(*ArrayV)
 		if !ok {
 			unm("Index on %T", x)
@@ -1553,10 +1556,23 @@ func (e *Engine) strIndex(st *State, f *Frame, in ssa.Value, s *Str, idx *Term) 
 			if i, ok := idx.ConstInt(); ok {
 				fr.regs[in] = I(int64(c[i]))
 			} else {
-				// constant table lookup with symbolic index
-				v := I(int64(c[len(c)-1]))
-				for j := len(c) - 2; j >= 0; j-- {
-					v = Ite(Eq(idx, I(int64(j))), I(int64(c[j])), v)
+				// constant table lookup with symbolic index: piecewise linear over runs of
+				// consecutive byte values (e.g. "a..zA..Z0..9" has three runs)
+				type run struct{ start, end int } // [start,end)
+				var runs []run
+				for j := 0; j < len(c); {
+					k := j + 1
+					for k < len(c) && c[k] == c[k-1]+1 {
+						k++
+					}
+					runs = append(runs, run{j, k})
+					j = k
+				}
+				last := runs[len(runs)-1]
+				v := Add(idx, I(int64(c[last.start])-int64(last.start)))
+				for r := len(runs) - 2; r >= 0; r-- {
+					rr := runs[r]
+					v = Ite(Lt(idx, I(int64(rr.end))), Add(idx, I(int64(c[rr.start])-int64(rr.start))), v)
 				}
 				fr.regs[in] = v
 			}
